@@ -189,7 +189,8 @@ def run(ck):
         T.add_fact(facts, T.mk_eq(T.mk_call("len", [last]), C(len(cols) - 1)), False)
         ck.observe(f"O5 {cluster.where}: every cluster is `<record> + [1]` ({len(cols)} slots), so the "
                    f"`len(prev_line) == {len(cols) - 1}` arm and the `elif` arm of cluster_indels are dead code")
-    ex = Explorer(ctx, cluster, env={main.target.id: line, out_name: out}, facts=facts, unroll=(0, 1))
+    ex = Explorer(ctx, cluster, env={main.target.id: line, out_name: out}, facts=facts, unroll=(0, 1),
+                  follow=lambda callee: callee.module is cluster.module and callee is not cluster)
     body_paths = ex.run(body=main.body)
     ck.add_paths(len(body_paths))
     ck.floor("C20.1 paths through one clustering iteration", len(body_paths), 3)
